@@ -108,7 +108,28 @@ typedef struct {
 } pool_t;
 
 static int max_props_bound = 2;
-static int c20_font;                        /* address used as font key */
+#define C20_FONT ((void *)(uintptr_t)0x5000)  /* constant font key: home slots must not depend on where the binary is loaded */
+/* glyph keys: key A's home slot is the LAST slot of the (small, PIXMAN_VERIF) table, key B has the same home and so wraps to slot 0 */
+static uintptr_t c20_gkey[2] = { 1, 2 };
+struct c20_cache_mirror { int n_glyphs, n_tombstones, freeze_count; pixman_list_t mru; void *glyphs[PIXMAN_VERIF_GLYPH_HASH_SIZE]; };   /* layout of pixman_glyph_cache_t (pixman-glyph.c) */
+static void c20_choose_keys(void)
+{
+    uint32_t px = 0x80808080u; int found = 0;
+    pixman_image_t *g = pixman_image_create_bits(PIXMAN_a8, 1, 1, &px, 4);
+    for (uintptr_t k = 1; k < 4096 && found < 2; k++) {
+        pixman_glyph_cache_t *c = pixman_glyph_cache_create();
+        pixman_glyph_cache_freeze(c);
+        if (pixman_glyph_cache_insert(c, C20_FONT, (void *)k, 0, 0, g)) {
+            struct c20_cache_mirror *m = (struct c20_cache_mirror *)c; int used = 0, last = 0;
+            for (int i = 0; i < PIXMAN_VERIF_GLYPH_HASH_SIZE; i++) if (m->glyphs[i]) { used++; last = i; }
+            if (m->n_glyphs != 1 || used != 1) { fprintf(stderr, "c20: the glyph cache does not have the expected layout\n"); exit(2); }
+            if (last == PIXMAN_VERIF_GLYPH_HASH_SIZE - 1) c20_gkey[found++] = k;
+        }
+        pixman_glyph_cache_thaw(c); pixman_glyph_cache_destroy(c);
+    }
+    pixman_image_unref(g);
+    if (found < 2) { fprintf(stderr, "c20: no glyph keys with the last slot as home found\n"); exit(2); }
+}
 
 static void pool_create(pool_t *p)
 {
@@ -289,7 +310,7 @@ static int apply(pool_t *p, int op, const char *desc)
         int i = op - OP_GINS; if (m->im[i].crefs < 1 || m->gkey[i]) return 0;
         ensure_cache(p);
         pixman_glyph_cache_freeze(p->cache);
-        const void *g = pixman_glyph_cache_insert(p->cache, &c20_font, (void *)(uintptr_t)(i + 1), 1, 2, p->img[i]);
+        const void *g = pixman_glyph_cache_insert(p->cache, C20_FONT, (void *)c20_gkey[i], 1, 2, p->img[i]);
         pixman_glyph_cache_thaw(p->cache);
         m->gkey[i] = 1;
         if (!g) vf_violation("c20-glyph-insert-failed", "%s: glyph insert returned NULL", desc);
@@ -298,7 +319,7 @@ static int apply(pool_t *p, int op, const char *desc)
     }
     if (op < OP_USE) {
         int k = op - OP_GREM; if (!m->gkey[k]) return 0;
-        pixman_glyph_cache_remove(p->cache, &c20_font, (void *)(uintptr_t)(k + 1));
+        pixman_glyph_cache_remove(p->cache, C20_FONT, (void *)c20_gkey[k]);
         m->gkey[k] = 0;
         judge_destruction(p, before, desc, what, 0, 0, 0);
         return 1;
@@ -444,6 +465,7 @@ static void self_alpha_use_case(uint64_t idx, void *ctx)
 int main(int argc, char **argv)
 {
     vf_init(argc, argv, "C20", "model_checking");
+    c20_choose_keys();
     bfs_replay_adopt_tier();
     int th = vf_is_thorough();
     vf_rule = "E2: breadth-first search over ownership states of a pool of three images (A bits/library storage, B bits/client storage, G linear gradient) and a glyph cache; "
